@@ -1,9 +1,12 @@
 use crate::PropDef;
 
 pub mod c07;
+pub mod c09;
+pub mod c10;
+pub mod c11;
 
 pub fn all() -> Vec<&'static PropDef> {
-    vec![&c07::DEF]
+    vec![&c07::DEF, &c09::DEF, &c10::DEF, &c11::DEF]
 }
 
 pub fn find(id: &str) -> Option<&'static PropDef> {
